@@ -3,6 +3,7 @@
 from typing import Iterator, Optional
 from .tokens import Token, TokenType, KEYWORDS
 from .errors import JSSyntaxError
+from .values import JS_WHITESPACE
 
 
 class Lexer:
@@ -46,8 +47,8 @@ class Lexer:
         while self.pos < self.length:
             ch = self._current()
 
-            # Whitespace
-            if ch in " \t\r\n":
+            # Whitespace (WhiteSpace and LineTerminator of the language)
+            if ch in JS_WHITESPACE:
                 self._advance()
                 continue
 
@@ -55,7 +56,7 @@ class Lexer:
             if ch == "/" and self._peek() == "/":
                 self._advance()  # /
                 self._advance()  # /
-                while self._current() and self._current() != "\n":
+                while self._current() and self._current() not in "\n\r\u2028\u2029":
                     self._advance()
                 continue
 
